@@ -100,4 +100,37 @@ def run_cell(cell, rec, seed):
         cc = (a[:, :, None] * b[:, None, :]).mean(0)
         rec.leq("components mutually independent (cross-correlation)", np.abs(cc),
                 6.0 / np.sqrt(N), detail=info, mech="sample-components-correlated")
+    # ---- histories: the law must follow the object's current state after it was sliced or
+    # updated in place, also when samples were drawn before the update
+    L = build.lib()
+    hist = []
+    idx = rng.integers(0, R, size=R + 1)
+    hist.append(("slice", p.slice(JI(idx)), t.mu[idx], t.Sigma[idx]))
+    cls = L.pdf.GaussianDiagPDF if diag else L.pdf.GaussianPDF
+    pu = cls(Sigma=J(t.Sigma), mu=J(t.mu))
+    pu.sample(key, 4)  # a draw before the update (anything cached now must not survive it)
+    i0 = int(rng.integers(0, R))
+    d, td = build.mk_pdf(rng, 1, D, kappa=10.0, scale=3.0, diag=diag)
+    pu.update(JI([i0]), d)
+    mu_u, S_u = t.mu.copy(), t.Sigma.copy()
+    mu_u[i0], S_u[i0] = td.mu[0], td.Sigma[0]
+    hist.append(("sample-update-sample", pu, mu_u, S_u))
+    for name, obj, mu_h, S_h in hist:
+        rec.cell([diag, R, D, corr, name], R > 1 or D > 1)
+        Rh = mu_h.shape[0]
+        xh = lc.call(rec, f"sample[{name}]", lambda: np.asarray(obj.sample(key, n)), info)
+        if xh is None or xh.shape != (n, Rh, D):
+            rec.true(f"shape after {name}", False, mech=f"sample-shape:{name}", detail=info)
+            continue
+        zh = np.asarray(jax.random.normal(key, (n, Rh, D)))
+        for r in range(Rh):
+            res = xh[:, r, :] - mu_h[r][None]
+            At = np.linalg.lstsq(zh[:, r, :], res, rcond=None)[0]
+            sd = np.sqrt(np.max(np.diag(S_h[r])))
+            rec.close(f"{name}: affine image of the stream", zh[:, r, :] @ At, res, ns=sd * 10.0,
+                      detail=dict(info, history=name, component=r),
+                      mech=f"sample-not-affine-in-stream:{name}")
+            rec.close(f"{name}: A A' = Sigma", At.T @ At, S_h[r], ns=np.max(np.abs(S_h[r])),
+                      tol_rel=1e-7, detail=dict(info, history=name, component=r),
+                      mech=f"sample-wrong-covariance-factor:{name}")
     rec.sample({"case": info, "first_draws": x[:2]})
